@@ -85,11 +85,11 @@ impl SvgElement {
 //@ replace[R-iter-vec] <<<for (k, v) in &self.attrs {>>> => <<<for (k, v) in attr_pairs(&self.attrs) {>>>
 //@ cut[R-abstract] <<<            bs.push_attribute(Attribute::from((\n                "class">>> .. <<<            )));>>> => <<<            bs.push_attribute(Attribute::from(("class", class_string(self.classes).as_str())));>>>
 //@ ensures
-//@ - forall|i: int| 0 <= i < r.attrs().len() ==> attr_safe((#[trigger] r.attrs()[i]).1)     @@C02.attr.escaped
+//@ - forall|i: int| 0 <= i < r.attrs().len() ==> attr_safe((#[trigger] r.attrs()[i]).1)     @@C02.attr.escaped @@C03.attr.value_preserved @@C05.attr.value_preserved
 //@ loop 1
 //@ iter it
 //@ invariant
-//@ - forall|i: int| 0 <= i < bs.attrs().len() ==> attr_safe((#[trigger] bs.attrs()[i]).1)     @@C02.attr.escaped.loop
+//@ - forall|i: int| 0 <= i < bs.attrs().len() ==> attr_safe((#[trigger] bs.attrs()[i]).1)     @@C02.attr.escaped.loop @@C03.attr.value_preserved.loop @@C05.attr.value_preserved.loop
 //@end
 }
 
